@@ -1,6 +1,7 @@
 """C09 maintenance freezes automation; leaving re-learns the real master."""
 from tools import vlib
 from tools import cluster
+from tools import daemon
 
 
 def run(ctx):
@@ -26,7 +27,12 @@ def run(ctx):
         v.fail(name, sig, "%s (scenario %s)" % ({k: row[k] for k in row if k != "scn"}, row["scn"]),
                {"row": row, "scenario": meta["scenarios"].get(row["scn"]),
                 "how": "VERIF_ONLY=<scenario id> go test -run TestVerifC09 (overlay)"})
+    # the mode machine (Daemon.tla): every activation of a state handler in those runs; the clauses of the statement
+    # ("candidates follow only after acknowledgement", the paused loop, the manager obeying the record) are C09's
+    dm = daemon.mc_daemon(ctx)
+    modes = daemon.mode_rows(ctx, v, [x for x in rows if x["kind"] == "mode"], meta["scenarios"], "C09_")
     cov = {
+        "mode_machine": dict(dm, scenario_rows=modes),
         "states": mc.distinct + r.distinct, "transitions": mc.generated + r.generated,
         "maintenance_model_states": mc.distinct, "model_exhibits_S9": bool(s9.violations),
         "traces_validated_against_impl": meta["runs"], "evaluations": meta["runs"],
